@@ -27,3 +27,9 @@ def register(prop, TB):
         "module names are ranked in byte order by the harness (bin/detsuite.py) before they reach the model",
         "rayon and per-process hash seeds are represented by an arbitrary-order parameter in the theorems and exercised by repeated fresh processes with RAYON_NUM_THREADS in {1,2,3,8,16}; shared mutable caches inside write_item are covered by the byte comparison only",
         "workspace mode is not exercised (its generation step needs a cargo workspace on disk; the repository's own workspace tests are the ones dropped offline)"])
+    import compilesuite
+    prop("C14", level="other", lean_props=["C14"], bins=["rt", "gentool"], streams=[], oracle_tags=["C14"], extra_steps=[compilesuite.step], trusted_base=TB + [
+        "rustc (cargo check) is the judge of 'type-checks'; nothing about rustc is modelled",
+        "heck's case conversion is not modelled; sibling-name collisions are exercised by the generator of bin/compilesuite.py only",
+        "the T2 extraction of KEYWORDS_SET and the path-segment keyword list from symbol.rs (bin/tables.py)"],
+        explanation="The decisive predicate (rustc accepts what pilota-build emits) cannot be a theorem. Checked instead: (1) machine-checked theorems about pilota-build's naming logic over tables re-extracted from symbol.rs on every run — the keyword table covers every Rust 2024 keyword, escaped forms are never keywords, Display prints path-segment keywords with a trailing underscore and other keywords as raw identifiers, and the relative path printed from any module to any item resolves under Rust's super:: rules to exactly that item; (2) the real generator is run over documents with keyword / std-name / case-colliding identifiers, mutual recursion, nested containers, every kind of default literal, pilota annotations and services, under every builder configuration (plain, split, keep_unknown_fields, change_case off, ignore_unused, all combined); it must exit normally and everything it emits must pass cargo check against /repo's pilota.")
